@@ -5,7 +5,7 @@ import random
 
 from PIL import Image
 
-MODES = ["1", "L", "LA", "P", "PA", "RGB", "RGBA", "CMYK", "HSV"]
+MODES = ["1", "L", "LA", "P", "PA", "RGB", "RGBA", "CMYK", "HSV", "P-rgba"]
 PATTERNS = ["uniform", "runs", "random", "alpha-steps", "two-tone", "single-px", "soft-edge", "soft-edge", "half-noise"]
 
 
@@ -88,6 +88,13 @@ def make_image(d: dict) -> Image.Image:
             return out
         except Exception:
             return p
+    if mode == "P-rgba":
+        # a palette image whose transparency lives in an RGBA palette (no info["transparency"]),
+        # as Image.quantize() of an RGBA image produces
+        try:
+            return img.quantize(colors=64, method=Image.Quantize.FASTOCTREE)
+        except Exception:
+            return img
     if mode == "LA":
         return img.convert("LA")
     if mode in ("CMYK", "HSV", "1", "L", "P", "RGB"):
